@@ -241,7 +241,8 @@ def translate(repo, only=None):
     def t_get_indices():
         f = find(mod, 'get_indices')
         body = [ast.unparse(st) for st in f.body if not (isinstance(st, ast.Expr) and isinstance(st.value, ast.Constant))]
-        want = ['coefficients = np.array((a, b)).T', 'target = points - zero', 'result = np.linalg.solve(coefficients, target.T).T', 'return result']
+        # (the difference is taken in float64 -- np.subtract(..., dtype=np.float64) --, so that unsigned integer coordinates do not wrap: F18)
+        want = ['coefficients = np.array((a, b)).T', 'target = np.subtract(points, zero, dtype=np.float64)', 'result = np.linalg.solve(coefficients, target.T).T', 'return result']
         if body != want:
             raise Untranslatable('get_indices body changed: %s' % body)
         # np.linalg.solve([[ay, by], [ax, bx]], t) by Cramer's rule (trusted primitive)
